@@ -11,6 +11,7 @@ import (
 	"runtime"
 	"runtime/debug"
 	"sort"
+	"strconv"
 	"strings"
 	"time"
 
@@ -218,8 +219,11 @@ type Result struct {
 	WallUS  int64          `json:"wall_us,omitempty"`
 	Frames  [][2]int       `json:"frames,omitempty"`
 	Sweep   bool           `json:"sweep,omitempty"`
-	States  []uint64       `json:"states,omitempty"`
-	Trans   []uint64       `json:"trans,omitempty"`
+	// StartProcs is the GOMAXPROCS value the process was started with
+	// (environment; 0 = unset); package initialisation may depend on it.
+	StartProcs int      `json:"start_procs,omitempty"`
+	States     []uint64 `json:"states,omitempty"`
+	Trans      []uint64 `json:"trans,omitempty"`
 }
 
 // Profile is a named simulated workload with its oracles, owned by one
@@ -276,6 +280,12 @@ func Props() []string {
 	sort.Strings(out)
 	return out
 }
+
+// StartProcs is the GOMAXPROCS environment value at process start.
+var StartProcs = func() int {
+	n, _ := strconv.Atoi(os.Getenv("GOMAXPROCS"))
+	return n
+}()
 
 var theSched *sched.Controller
 
@@ -357,6 +367,7 @@ func Execute(p *Profile, tier string, seed uint64, t *tape.Tape, index int, hang
 	}
 	res.Trace = r.trace
 	res.Sweep = r.SweepCase >= 0
+	res.StartProcs = StartProcs
 	res.States = r.States
 	res.Trans = r.Trans
 	res.Tape = t.Values()
